@@ -118,6 +118,14 @@ func readHTTP(u *url.URL, rt http.RoundTripper) ([]byte, error) {
 	return b, nil
 }
 
+// redactFileOrBase64 returns name in a form that is safe to log, embedded data is hidden.
+func redactFileOrBase64(name string) string {
+	if strings.HasPrefix(name, "data:") {
+		return "data:xxxxx"
+	}
+	return name
+}
+
 func ReadFileOrBase64(name string) ([]byte, error) {
 	if strings.HasPrefix(name, "data:") {
 		return readData(&url.URL{
